@@ -12,10 +12,49 @@ use std::os::unix::ffi::OsStrExt;
 use std::os::unix::fs::{MetadataExt, PermissionsExt};
 use std::path::{Path, PathBuf};
 use std::sync::Mutex;
+use std::sync::atomic::{AtomicBool, Ordering};
 
 use filetime::FileTime;
 use serde::{Deserialize, Serialize};
 use serde_json::{Value, json};
+
+/// "Big" scenarios (contents of kilobytes to hundreds of kilobytes, block sizes as in production):
+/// in every event a content longer than 64 bytes is replaced by its length and BLAKE2b digest (68
+/// bytes), the same way for source trees, restored trees and decoded blocks, so that equality of
+/// contents is preserved and the specification never sees the bulk.
+pub static BIG: AtomicBool = AtomicBool::new(false);
+
+pub fn abstract_content(c: &[u8]) -> Vec<u8> {
+    if BIG.load(Ordering::SeqCst) && c.len() > 64 {
+        let mut v = (c.len() as u32).to_le_bytes().to_vec();
+        v.extend_from_slice(blake2_rfc::blake2b::blake2b(64, &[], c).as_bytes());
+        v
+    } else {
+        c.to_vec()
+    }
+}
+
+/// Content given as pieces: ("z", n, _) n zero bytes; ("b", n, x) n bytes of value x; ("r", n, seed)
+/// n pseudo-random bytes.
+pub fn expand_pieces(cg: &[(String, u64, u64)]) -> Vec<u8> {
+    let mut out = Vec::new();
+    for (kind, n, x) in cg {
+        match kind.as_str() {
+            "z" => out.extend(std::iter::repeat(0u8).take(*n as usize)),
+            "b" => out.extend(std::iter::repeat(*x as u8).take(*n as usize)),
+            _ => {
+                let mut s = x.wrapping_mul(0x9E3779B97F4A7C15) | 1;
+                for _ in 0..*n {
+                    s ^= s << 13;
+                    s ^= s >> 7;
+                    s ^= s << 17;
+                    out.push((s >> 24) as u8);
+                }
+            }
+        }
+    }
+    out
+}
 
 #[derive(Clone, Debug, Serialize, Deserialize, PartialEq, Eq)]
 pub struct Node {
@@ -26,6 +65,9 @@ pub struct Node {
     /// Content, for files.
     #[serde(default)]
     pub c: Vec<u8>,
+    /// Content given as pieces instead (see `expand_pieces`); only in scenario input.
+    #[serde(default, skip_serializing)]
+    pub cg: Vec<(String, u64, u64)>,
     /// Target, for symlinks.
     #[serde(default)]
     pub t: Vec<u8>,
@@ -49,7 +91,7 @@ fn default_mode() -> u32 {
 
 impl Node {
     pub fn to_json(&self) -> Value {
-        json!({"p": self.p, "k": self.k, "c": self.c, "t": self.t, "mt": [self.mt.0, self.mt.1],
+        json!({"p": self.p, "k": self.k, "c": abstract_content(&self.c), "t": self.t, "mt": [self.mt.0, self.mt.1],
                "mode": self.mode, "u": self.u, "g": self.g})
     }
     pub fn rel_path(&self) -> PathBuf {
@@ -154,7 +196,13 @@ pub fn materialize(root: &Path, nodes: &[Node]) -> io::Result<()> {
         let path = root.join(n.rel_path());
         match n.k.as_str() {
             "Dir" => fs::create_dir(&path)?,
-            "File" => fs::write(&path, &n.c)?,
+            "File" => {
+                if n.cg.is_empty() {
+                    fs::write(&path, &n.c)?
+                } else {
+                    fs::write(&path, expand_pieces(&n.cg))?
+                }
+            }
             "Symlink" => std::os::unix::fs::symlink(OsStr::from_bytes(&n.t), &path)?,
             other => {
                 return Err(io::Error::new(io::ErrorKind::InvalidInput, format!("kind {other}")));
@@ -196,6 +244,7 @@ fn project_into(root: &Path, rel: &mut Vec<Vec<u8>>, path: &Path, out: &mut Vec<
         p: rel.clone(),
         k: k.to_string(),
         c,
+        cg: vec![],
         t,
         mt: (md.mtime(), md.mtime_nsec() as u32),
         mode: md.mode() & 0o7777,
